@@ -108,8 +108,9 @@ Qed.
 
 Lemma step_minute_one fuel s w o : valid s -> inside real s -> hullset w = [o] ->
   if includes s o
-  then exists a b, split_candle QcNum s (oprice o) = Val (a, b) /                   match_minute react (S (S fuel)) s w = Done [(o, a)] b (react o a (remove_order o w))
-  else match_minute react (S fuel) s w = Done [] s w.
+  then exists a b, split_candle QcNum s (oprice o) = Val (a, b) /\
+                   match_minute react (S (S fuel)) s w = Done [(o, a)] b (react o a (remove_order o w))
+  else match_minute react (S (S fuel)) s w = Done [] s w.
 Proof.
   intros V I H. destruct (hull_member o w H) as [Hin Hr].
   destruct (includes s o) eqn:E.
@@ -131,8 +132,9 @@ Proof. intros H. cbn [floop pick find]. reflexivity. Qed.
 
 Lemma fast_minute_one fuel rest i f w o fills : valid f -> inside real f -> hullset w = [o] ->
   if includes f o
-  then exists a b, split_candle QcNum f (oprice o) = Val (a, b) /                   floop react (S (S fuel)) real rest i f w [o] fills = inl (Some (fills ++ [(o, a, i)], react o a (remove_order o w), []))
-  else floop react (S fuel) real rest i f w [o] fills = inl (Some (fills, w, [o])).
+  then exists a b, split_candle QcNum f (oprice o) = Val (a, b) /\
+                   floop react (S (S fuel)) real rest i f w [o] fills = inl (Some (fills ++ [(o, a, i)], react o a (remove_order o w), []))
+  else floop react (S (S fuel)) real rest i f w [o] fills = inl (Some (fills, w, [o])).
 Proof.
   intros V I H. destruct (hull_member o w H) as [Hin Hr].
   destruct (includes f o) eqn:E.
@@ -144,3 +146,129 @@ Proof.
     unfold refresh, executing. fold (hullset (react o a (remove_order o w))). rewrite Hw. cbn [length Nat.ltb Nat.leb pick find]. reflexivity.
   - cbn [floop pick find]. rewrite (is_active_self w o Hin), E. cbn [andb]. reflexivity.
 Qed.
+
+(* the normal simulator over the same minutes: gap normalisation, then the per-minute matcher *)
+Fixpoint step_chunk (fuel : nat) (prev : option cndl) (i : nat) (ks : list cndl) (w : list rorder) (fills : list (rorder * cndl * nat))
+  : option (list (rorder * cndl * nat) * list rorder) :=
+  match ks with
+  | [] => Some (fills, w)
+  | k :: r =>
+      let s := match prev with Some p => fix_jump QcNum p k | None => k end in
+      match match_minute react fuel s w with
+      | Done fs _ w' => step_chunk fuel (Some k) (S i) r w' (fills ++ map (fun f => (fst f, snd f, i)) fs)
+      | _ => None
+      end
+  end.
+
+Definition ids (fl : list (rorder * cndl * nat)) : list (nat * nat) := map (fun f => (oid (fst (fst f)), snd f)) fl.
+Lemma ids_app a b : ids (a ++ b) = ids a ++ ids b.
+Proof. unfold ids. apply map_app. Qed.
+
+Definition good (k : cndl) : Prop := valid k /\ inside real k.
+Definition good_prev (prev : option cndl) : Prop := match prev with Some p => good p | None => True end.
+
+Lemma chunks_agree fuel : forall ks prev i w cands fl sl fl' wf sl' ws,
+  Forall good ks -> good_prev prev -> (length (hullset w) <= 1)%nat -> cands = hullset w -> ids fl = ids sl ->
+  fchunk react (S (S fuel)) real prev i ks w cands fl = FDone fl' wf ->
+  step_chunk (S (S fuel)) prev i ks w sl = Some (sl', ws) ->
+  ids fl' = ids sl' /\ wf = ws.
+Proof.
+  induction ks as [|k r IH]; intros prev i w cands fl sl fl' wf sl' ws Hg Hp Hl Hc Hi HF HS.
+  - cbn [fchunk step_chunk] in *. injection HF as <- <-. injection HS as <- <-. split; [exact Hi|reflexivity].
+  - apply Forall_cons_iff in Hg. destruct Hg as [[Vk Ik] Hg].
+    set (f := match prev with Some p => stretch p k | None => k end).
+    set (s := match prev with Some p => fix_jump QcNum p k | None => k end).
+    assert (Vf : valid f) by (unfold f; destruct prev; [apply stretch_valid; exact Vk|exact Vk]).
+    assert (If : inside real f) by (unfold f; destruct prev as [p|]; [destruct Hp as [Vp Ip]; apply stretch_inside; assumption|exact Ik]).
+    assert (Vs : valid s) by (unfold s; destruct prev as [p|]; [apply (fix_jump_valid p k Vk)|exact Vk]).
+    assert (Is : inside real s) by (unfold s; destruct prev as [p|]; [destruct Hp as [Vp Ip]; apply fix_inside; assumption|exact Ik]).
+    assert (Same : forall x, includes s x = includes f x) by (intros x; unfold s, f; destruct prev; [apply same_candidates; exact Vk|reflexivity]).
+    cbn [fchunk step_chunk] in HF, HS. fold f in HF. fold s in HS.
+    destruct (hullset w) as [|o [|o2 rest]] eqn:Hh; [| |cbn in Hl; lia].
+    + subst cands. rewrite (fast_minute_none (S fuel) r i f w fl Hh) in HF. rewrite (step_minute_none (S fuel) s w Is Hh) in HS.
+      cbn [map] in HS. rewrite app_nil_r in HS.
+      assert (L0 : (length (hullset w) <= 1)%nat) by (rewrite Hh; cbn; lia).
+      exact (IH (Some k) (S i) w [] fl sl fl' wf sl' ws Hg (conj Vk Ik) L0 (eq_sym Hh) Hi HF HS).
+    + subst cands. pose proof (fast_minute_one fuel r i f w o fl Vf If Hh) as Ff. pose proof (step_minute_one fuel s w o Vs Is Hh) as Fs.
+      rewrite Same in Fs. destruct (includes f o).
+      * destruct Ff as (a & b & _ & Ff). destruct Fs as (a' & b' & _ & Fs). rewrite Ff in HF. rewrite Fs in HS. cbn [map fst snd] in HS.
+        rewrite (react_indep o a' a) in HS.
+        assert (Hw : hullset (react o a (remove_order o w)) = []) by (apply react_outside; apply hullset_remove; exact Hh).
+        assert (L0 : (length (hullset (react o a (remove_order o w))) <= 1)%nat) by (rewrite Hw; cbn; lia).
+        assert (Hi' : ids (fl ++ [(o, a, i)]) = ids (sl ++ [(o, a', i)])) by (rewrite !ids_app, Hi; reflexivity).
+        exact (IH (Some k) (S i) _ [] _ _ fl' wf sl' ws Hg (conj Vk Ik) L0 (eq_sym Hw) Hi' HF HS).
+      * rewrite Ff in HF. rewrite Fs in HS. cbn [map] in HS. rewrite app_nil_r in HS.
+        assert (L0 : (length (hullset w) <= 1)%nat) by (rewrite Hh; cbn; lia).
+        exact (IH (Some k) (S i) w [o] fl sl fl' wf sl' ws Hg (conj Vk Ik) L0 (eq_sym Hh) Hi HF HS).
+Qed.
+
+Lemma fchunk_nothing fuel : forall ks prev i w fl, hullset w = [] -> fchunk react (S fuel) real prev i ks w [] fl = FDone fl w.
+Proof.
+  induction ks as [|k r IH]; intros prev i w fl H; cbn [fchunk]; [reflexivity|].
+  rewrite (fast_minute_none fuel r i _ w fl H). apply IH. exact H.
+Qed.
+End OneCandidate.
+
+(* C12: a chunk of valid minutes in which at most one resting order lies inside the chunk's range, with a strategy layer whose
+   reaction to a fill does not read the partial candle and places nothing inside the chunk's range: the fast matcher and the
+   normal matcher (gap normalisation + per-minute loop) fill the same order in the same minute and leave the same orders *)
+Theorem single_candidate_chunk react fuel ks real w fl wf sl ws :
+  (forall o a a' w0, react o a w0 = react o a' w0) ->
+  (forall o a w0, hullset real w0 = [] -> hullset real (react o a w0) = []) ->
+  Forall valid ks -> chunk_candle ks = Some real -> (length (hullset real w) <= 1)%nat ->
+  fast_chunk react (S (S fuel)) ks w = FDone fl wf ->
+  step_chunk react (S (S fuel)) None 0 ks w [] = Some (sl, ws) ->
+  ids fl = ids sl /\ wf = ws.
+Proof.
+  intros Hind Hout Hv Hreal Hl HF HS.
+  assert (Hg : Forall (good real) ks).
+  { pose proof (hull ks real Hreal) as Hh. rewrite Forall_forall in *. intros k Hk. split; [apply Hv|apply Hh]; exact Hk. }
+  unfold fast_chunk in HF. rewrite Hreal in HF. change (executing real w) with (hullset real w) in HF.
+  destruct (hullset real w) as [|o [|o2 rest]] eqn:Hh; [| |cbn in Hl; lia].
+  - rewrite <- (fchunk_nothing react real (S fuel) ks None 0 w [] Hh) in HF.
+    apply (chunks_agree react real Hind Hout fuel ks None 0 w [] [] [] fl wf sl ws Hg I); [rewrite Hh; cbn; lia|symmetry; exact Hh|reflexivity|exact HF|exact HS].
+  - cbn [length Nat.ltb Nat.leb] in HF.
+    apply (chunks_agree react real Hind Hout fuel ks None 0 w [o] [] [] fl wf sl ws Hg I); [rewrite Hh; cbn; lia|symmetry; exact Hh|reflexivity|exact HF|exact HS].
+Qed.
+
+(* ------------------------------------------------------------------ the higher-timeframe windows (generated read lists) *)
+From JV Require Import Gen.simidx.
+Local Open Scope Z_scope.
+
+(* when the fast simulator generates a higher-timeframe candle at the end of the chunk starting at row i, it reads exactly the rows
+   the normal simulator reads for it at the chunk's last minute *)
+Theorem fast_windows_are_step_windows i step count : fast_per_tf i step count = step_per_tf (i + step - 1) count.
+Proof. unfold fast_per_tf, step_per_tf. repeat (f_equal; try ring). Qed.
+
+(* and the normal simulator completes no window strictly inside a chunk, when the step divides the timeframe and chunks start on
+   multiples of the step *)
+Theorem no_window_inside_chunk i step count m : 0 < step -> 0 < count -> (step | count) -> (step | i) -> i <= m -> m < i + step - 1 ->
+  Forall (fun a : bool * Z * Z => fst (fst a) = false) (step_per_tf m count).
+Proof.
+  intros Hs Hc Hd Hi L U. unfold step_per_tf. repeat (apply Forall_cons || apply Forall_nil). cbn [fst].
+  apply Z.eqb_neq. intros H. apply Z.mod_divide in H; [|lia].
+  assert (D : (step | (m + 1) - i)) by (apply Z.divide_sub_r; [apply (Z.divide_trans _ count); [exact Hd|exact H]|exact Hi]).
+  apply Z.divide_pos_le in D; lia.
+Qed.
+
+(* strategies run at the same moments: the chunk's end in the fast simulator is the chunk's last minute in the normal one, and the
+   normal simulator runs no route of `count` minutes strictly inside a chunk *)
+Theorem fast_executes_with_step i step count : fast_executes i step count = step_executes (i + step - 1) count.
+Proof. unfold fast_executes, step_executes. repeat (f_equal; try ring). Qed.
+Theorem no_execution_inside_chunk i step count m : 0 < step -> 0 < count -> (step | count) -> (step | i) -> i <= m -> m < i + step - 1 ->
+  step_executes m count = false.
+Proof.
+  intros Hs Hc Hd Hi L U. unfold step_executes. apply Z.eqb_neq. intros H. apply Z.mod_divide in H; [|lia].
+  assert (D : (step | (m + 1) - i)) by (apply Z.divide_sub_r; [apply (Z.divide_trans _ count); [exact Hd|exact H]|exact Hi]).
+  apply Z.divide_pos_le in D; lia.
+Qed.
+
+(* the chunk length divides the timeframe of every route, trading or data *)
+Lemma fold_gcd_divides l : forall a, (fold_left Z.gcd l a | a) /\ forall x, In x l -> (fold_left Z.gcd l a | x).
+Proof.
+  induction l as [|y l IH]; intros a; cbn [fold_left]; [split; [apply Z.divide_refl|intros x []]|].
+  destruct (IH (Z.gcd a y)) as [A B]. split; [eapply Z.divide_trans; [exact A|apply Z.gcd_divide_l]|].
+  intros x [<-|Hx]; [eapply Z.divide_trans; [exact A|apply Z.gcd_divide_r]|apply B; exact Hx].
+Qed.
+Theorem candle_step_divides tfs x : In x tfs -> (candle_step tfs | x).
+Proof. intros H. unfold candle_step. apply (proj2 (fold_gcd_divides tfs 0) x H). Qed.
